@@ -69,6 +69,16 @@ def ensure_variant(variant):
     return libpath(variant)
 
 
+def defines(variant="asan"):
+    """The -D flags cmake gave the library objects (struct layouts depend on them)."""
+    import re
+    p = os.path.join(BUILD, variant, "build.ninja")
+    for line in open(p):
+        if line.strip().startswith("DEFINES ="):
+            return [d for d in line.split("=", 1)[1].split() if d.startswith("-D") and d != "-Dgmssl_EXPORTS"]
+    return []
+
+
 def _cc_native(src, out, extra, cc="gcc"):
     srcp = os.path.join(ROOT, "native", src)
     os.makedirs(os.path.dirname(out), exist_ok=True)
